@@ -168,6 +168,7 @@ func (ex *Exec) digestTerm(d DigestVal) *Term {
 		ex.assume(mkImplies(mkEq(h, prev), mkEq(d.arg, prev.Args[0])))
 	}
 	ex.happs = append(ex.happs, h)
+	// (the rendering is 64 hexadecimal digits: see slashFree, which is where the model relies on it)
 	return h
 }
 
